@@ -495,12 +495,12 @@ def zx_spec_of(d):
 
 
 core.register("C14", [
-    Facet("circuits", circuit_cases, check_circuit, n_quick=240,
+    Facet("circuits", circuit_cases, check_circuit, n_quick=480,
           shards_quick=8, rule=RULE),
-    Facet("tensors", tensor_cases, check_tensor, n_quick=120,
+    Facet("tensors", tensor_cases, check_tensor, n_quick=320,
           shards_quick=4, rule="tensor diagrams whose boxes mix sympy and "
           "numeric entries"),
-    Facet("zx", zx_cases, check_zx, n_quick=150, shards_quick=4,
+    Facet("zx", zx_cases, check_zx, n_quick=400, shards_quick=4,
           rule="ZX diagrams with symbolic spider phases and scalars, read "
           "back and interpreted by O8"),
 ], rule=RULE, assumptions=[
